@@ -189,6 +189,13 @@ func (s *Shared) Do(op string) Result {
 			return Result{Op: op, Idx: idx, Err: err}
 		}
 		b, err := io.ReadAll(r)
+		if err == nil && t%3 == 0 {
+			// a caller that asks once more after the end (legal; buffered wrappers do it): still the end, nothing else
+			var one [16]byte
+			if n, e := r.Read(one[:]); n != 0 || e != io.EOF {
+				err = fmt.Errorf("Read after the end of the stream returned (%d, %v)", n, e)
+			}
+		}
 		return Result{Op: op, Idx: idx, Out: b, Err: err}
 	}
 }
